@@ -8,6 +8,11 @@ Set Implicit Arguments.
 
 Notation addr := N (only parsing).
 
+(* Byte strings (uris, names, metadata keys and values, ...) are printed by the harness in full, as the
+   number whose base-256 digits are a leading byte 1 followed by the bytes: an injective encoding, so
+   two observations are equal iff the strings are.  The length is recovered from the number. *)
+Definition str_len (n : N) : N := (N.log2 n / 8)%N.
+
 Definition res_eqb {O} (oeqb : O -> O -> bool) (a b : res O) : bool :=
   match a, b with Ok x, Ok y => oeqb x y | Fail, Fail => true | _, _ => false end.
 Lemma res_eqb_refl {O} (oeqb : O -> O -> bool) :
@@ -206,3 +211,101 @@ Section Ledger.
       rewrite Hf. split; [reflexivity|split; auto].
   Qed.
 End Ledger.
+
+(* ---- trace-level clauses shared by all monitors ---- *)
+(* smallest non-zero index (0 if all are 0) *)
+Definition first_idx (a b : N) : N :=
+  if (a =? 0)%N then b else if (b =? 0)%N then a else N.min a b.
+Lemma first_idx_0 : first_idx 0%N 0%N = 0%N.
+Proof. reflexivity. Qed.
+
+Section TraceClauses.
+  Variables St C O Q V : Type.
+  Variable step : St -> C -> res (St * O).
+  Variable ans : St -> Q -> V.
+
+  (* (1) no event without observation: an event whose query list is empty proves nothing *)
+  Fixpoint nonempty_obs (t : list (ev C O Q V)) (i : N) : N :=
+    match t with
+    | [] => 0%N
+    | e :: r => match snd e with [] => N.succ i | _ => nonempty_obs r (N.succ i) end
+    end.
+  Definition has_queries (cq : C * list Q) : bool := match snd cq with [] => false | _ => true end.
+  Lemma nonempty_obs_model cs : forall s i, forallb has_queries cs = true ->
+    nonempty_obs (model_trace step ans s cs) i = 0%N.
+  Proof.
+    induction cs as [|cq cs IH]; intros s i H; [reflexivity|].
+    cbn [forallb] in H. apply andb_prop in H. destruct H as [H1 H2].
+    cbn [model_trace nonempty_obs]. unfold model_ev at 1. cbn [snd].
+    unfold has_queries in H1. destruct (snd cq); [discriminate|]. cbn [map]. apply IH. auto.
+  Qed.
+End TraceClauses.
+
+Section GapStable.
+  (* (2) index-based access is stable while nothing changes: across an Advance or a refused call
+     the (index, element) pairs observed must stay ONE injective relation *)
+  Variables St C O Q V : Type.
+  Variable pairs : list (Q * V) -> list (N * N).
+
+  Fixpoint gap_stable (prev : list (N * N)) (t : list (ev (tcall C) O Q V)) (i : N) : N :=
+    match t with
+    | [] => 0%N
+    | e :: r =>
+        let ps := pairs (snd e) in
+        match fst (fst e), snd (fst e) with
+        | Call _, Ok _ => gap_stable ps r (N.succ i)                 (* the call may have re-indexed *)
+        | _, _ => if forallb (fun p => forallb (fun q => Bool.eqb (N.eqb (fst p) (fst q)) (N.eqb (snd p) (snd q))) (prev ++ ps)) (prev ++ ps)
+                  then gap_stable (prev ++ ps) r (N.succ i) else N.succ i
+        end
+    end.
+
+  Variable step : N -> St -> C -> res (St * O).
+  Variable ans : St -> Q -> V.
+  Variable dflt : O.
+  Variable Inv : St -> Prop.
+  Variable L : St -> list N.                 (* the enumeration the indexes refer to *)
+  Hypothesis Inv_step : forall now s k, Inv s -> Inv (step_state (step now) s k).
+  Hypothesis L_nodup : forall s, Inv s -> NoDup (L s).
+  Hypothesis L_pairs : forall s qs, Inv s ->
+    Forall (fun p => nth_error (L s) (N.to_nat (fst p)) = Some (snd p)) (pairs (map (fun q => (q, ans s q)) qs)).
+
+  Lemma inj_pairs (l : list N) (ps : list (N * N)) : NoDup l ->
+    Forall (fun p => nth_error l (N.to_nat (fst p)) = Some (snd p)) ps ->
+    forallb (fun p => forallb (fun q => Bool.eqb (N.eqb (fst p) (fst q)) (N.eqb (snd p) (snd q))) ps) ps = true.
+  Proof.
+    intros Hn Hf. rewrite Forall_forall in Hf.
+    apply forallb_forall. intros p Hp. apply forallb_forall. intros q Hq.
+    pose proof (Hf p Hp) as Ep. pose proof (Hf q Hq) as Eq.
+    destruct (N.eqb (fst p) (fst q)) eqn:E1.
+    - apply N.eqb_eq in E1. rewrite E1 in Ep. rewrite Ep in Eq. inversion Eq. rewrite N.eqb_refl. reflexivity.
+    - apply N.eqb_neq in E1. destruct (N.eqb (snd p) (snd q)) eqn:E2; auto.
+      apply N.eqb_eq in E2. rewrite E2 in Ep.
+      pose proof (NoDup_nth_error_inj _ _ Hn Ep Eq) as E. exfalso. apply E1. lia.
+  Qed.
+
+  Lemma gap_stable_model cs : forall sl prev i, Inv (fst sl) ->
+    Forall (fun p => nth_error (L (fst sl)) (N.to_nat (fst p)) = Some (snd p)) prev ->
+    gap_stable prev (model_trace (lstep step dflt) (lans ans) sl cs) i = 0%N.
+  Proof.
+    induction cs as [|cq cs IH]; intros sl prev i HI Hprev; [reflexivity|].
+    destruct sl as [s now]. destruct cq as [k qs]. cbn [fst] in *.
+    cbn [model_trace gap_stable]. unfold model_ev, step_out, step_state, lans. cbn [fst snd].
+    assert (Hgap : forall ps, ps = pairs (map (fun q => (q, ans s q)) qs) ->
+              forallb (fun p => forallb (fun q => Bool.eqb (N.eqb (fst p) (fst q)) (N.eqb (snd p) (snd q))) (prev ++ ps)) (prev ++ ps) = true
+              /\ Forall (fun p => nth_error (L s) (N.to_nat (fst p)) = Some (snd p)) (prev ++ ps)).
+    { intros ps ->.
+      assert (Hall : Forall (fun p => nth_error (L s) (N.to_nat (fst p)) = Some (snd p))
+                            (prev ++ pairs (map (fun q => (q, ans s q)) qs)))
+        by (apply Forall_app; split; auto).
+      split; auto. apply (inj_pairs (L_nodup HI) Hall). }
+    destruct k as [c|n]; cbn [lstep fst snd].
+    - destruct (step now s c) as [[s' o]|] eqn:Es; cbn [fst snd].
+      + (* successful call *)
+        assert (HI' : Inv s') by (pose proof (Inv_step now c HI) as H; unfold step_state in H; rewrite Es in H; exact H).
+        apply IH; [exact HI'|]. cbn [fst]. apply L_pairs. auto.
+      + (* refused call: nothing changed *)
+        destruct (Hgap _ eq_refl) as [G1 G2]. rewrite G1. apply IH; auto.
+    - (* ledger gap: nothing changed *)
+      destruct (Hgap _ eq_refl) as [G1 G2]. rewrite G1. apply IH; auto.
+  Qed.
+End GapStable.
